@@ -828,7 +828,7 @@ def adaptive_mirror(t0, tau0, t_end, evs):
 def gen_adaptive_cases(ctx):
     rng = ctx.rng
     cases = []
-    N = 240 if ctx.tier == 'thorough' else 80
+    N = 240 if ctx.tier == 'thorough' else 60
     tries = 0
     while len(cases) < N and tries < 20 * N:
         tries += 1
@@ -851,7 +851,7 @@ def gen_adaptive_cases(ctx):
             tau0 = rng.choice([0.1, 0.01, 0.5, 1e-3])
             t0 = rng.choice([0.0, rng.uniform(-1, 1)])
             rs = None
-        nev = rng.randint(3, 40)
+        nev = rng.randint(3, 40 if ctx.tier == 'thorough' else 25)
         events, mev = [], []
         xa = np.array(x0, dtype=float)
         d = tol + tol * abs(xa)
